@@ -84,7 +84,9 @@ def run(chk: harness.Check):
         "identity, integer/float casts looked through); (D2) each Fraction aggregate is edge-dominated by the positive/finite test, by a comparison "
         "that puts its `whole` at or below `max_whole`, and by a comparison that puts |err| within accuracy·value; num/den come from "
         "FractionLookupTable::lookup(.., max_den); Regular is returned only under the fract() < 1e-10 test; (D3) FractionsConfigHelper::define clamps accuracy to "
-        "[0,1] and max_denominator to [1,16]. Shape and dominance only: no value is computed.")
+        "[0,1] and max_denominator to [1,16]; (D4) the format templates of <Number as Display>::fmt over the Fraction fields, decoded from MIR, are `{whole}`, "
+        "`{num}/{den}` or `{whole} {num}/{den}`, and a component is omitted only on the zero arm of a switch on it; (D5) the lookup table enumerates "
+        "numerators over 1..den and keys entries by num/den. Shape and dominance only: no value is computed.")
     chk.trusted = ["rustc MIR; f64 arithmetic treated as exact rational arithmetic for the identity (rounding error is not modelled)",
                    "u32/u8 <-> f64 casts treated as identity"]
     f = F.funcs.get(NA)
@@ -214,6 +216,8 @@ def run(chk: harness.Check):
         chk.expect(n >= 3, "C12.D2-limits", "lookup|max_den filters", f"{lk.file}:{lk.line}",
                    f"FractionLookupTable::lookup compares candidates against max_den in {n} place(s), expected the exact-hit test and both neighbour searches (3)",
                    sample=f"{lk.file}:{lk.line}: {n} comparisons against max_den")
+    d4_display(chk, F)
+    d5_table(chk, F)
     # ---- D3 -----------------------------------------------------------------------------------
     df = F.funcs.get("cooklang::convert::units_file::FractionsConfigHelper::define")
     if df is None:
@@ -228,6 +232,89 @@ def run(chk: harness.Check):
                    f"accuracy is not clamped to [0, 1] before it reaches new_approx's assertion: {full(acc)[:80]}", sample="accuracy.clamp(0.0, 1.0)")
         chk.expect(okd, "C12.D3-clamp", "define|max_denominator", f"{ff.file}:{s.get('line')}",
                    f"max_denominator is not clamped to [1, 16] (new_approx asserts <= 64): {full(den)[:80]}", sample="max_denominator.clamp(1, 16)")
+
+
+def d4_display(chk, F):
+    """The printed form `w n/d` denotes exactly the stored fraction: in <Number as Display>::fmt every format template over
+    the Fraction fields is one of `{whole}`, `{num}/{den}`, `{whole} {num}/{den}` (decoded from MIR), and a component is
+    left out only on the zero outcome of a switch on that very component."""
+    import fmtq
+    f = F.funcs.get("cooklang::<quantity::Number as std::fmt::Display>::fmt")
+    if f is None:
+        chk.fail("anchor-missing", "Number::fmt", "", "anchor-missing: <Number as Display>::fmt not found")
+        return
+    def fld(e):
+        t = full(e)
+        for k in ("whole", "num", "den", "err"):
+            if t.endswith("as Fraction." + k):
+                return k
+        return None
+    zero = {}      # field -> [edge taken when the field is 0]
+    for b, t in f.iter_terms("switch"):
+        k = fld(resolve(f, t["discr"]))
+        if k:
+            for val, tgt in t["targets"]:
+                if val == "0":
+                    zero.setdefault(k, []).append((b, tgt))
+    sites = []
+    for st in fmtq.format_sites(f):
+        ks = [fld(tk[1]) for tk in st["tokens"] if tk[0] == "arg"]
+        if ks and all(k in ("whole", "num", "den") for k in ks):
+            sites.append((st, fmtq.render(st["tokens"], lambda e: fld(e) or "?")))
+    chk.floor("C12.D4-display", "fraction templates in Number::fmt", len(sites), 3, f"{f.file}:{f.line}")
+    allowed = {"{whole}": ("num",), "{num}/{den}": ("whole",), "{whole} {num}/{den}": ()}
+    seen = set()
+    for st, form in sites:
+        where = f"{f.file}:{st['line']}"
+        if form not in allowed:
+            chk.fail("C12.D4-display", f"fmt|template {form}", where, f"Number::fmt prints a fraction as `{form}`, which does not denote whole + num/den")
+            continue
+        seen.add(form)
+        ok = all(any(f.edge_dominates(e, st["block"]) for e in zero.get(k, [])) for k in allowed[form])
+        chk.expect(ok, "C12.D4-display", f"fmt|{form}", where,
+                   f"the form `{form}` leaves out {allowed[form]} on a path where that component was not tested to be 0",
+                   sample=f"{where}: `{form}`" + (f" only when {allowed[form][0]} == 0" if allowed[form] else ""))
+    chk.expect("{whole} {num}/{den}" in seen, "C12.D4-display", "fmt|mixed form", f"{f.file}:{f.line}",
+               "Number::fmt no longer has the mixed form `{whole} {num}/{den}`", sample="mixed form present")
+
+
+def d5_table(chk, F):
+    """Supported fractions: FractionLookupTable::new enumerates num over the half-open range 1..den (a smaller positive
+    numerator) for each den of DENOMS, keys each entry by num/den, and stores the pair as (num, den)."""
+    g = F.funcs.get("cooklang::quantity::FractionLookupTable::new")
+    if g is None:
+        chk.fail("anchor-missing", "FractionLookupTable::new", "", "anchor-missing: FractionLookupTable::new not found")
+        return
+    ins = [(b, t) for b, t in g.calls() if (callee_key(t) or "").endswith("Vec::<T, A>::insert")]
+    chk.floor("C12.D5-table", "table inserts", len(ins), 1, f"{g.file}:{g.line}")
+    for b, t in ins:
+        e = resolve(g, t["args"][2])
+        txt = full(e)
+        where = g.where(b)
+        # (fixed, (num, den)) with fixed = ((num as f64 / den as f64) * FIX_RATIO) as i16
+        ok = e[0] == "agg" and e[1] == "tuple"
+        key = pair = None
+        if ok:
+            parts = dict(e[4])
+            key, pair = parts.get("0"), parts.get("1")
+            ok = key is not None and pair is not None and pair[0] == "agg" and pair[1] == "tuple"
+        if ok:
+            pp = dict(pair[4])
+            ntxt, dtxt = full(pp["0"]), full(pp["1"])
+            ktxt = full(key)
+            rng = [n for n in walk(pp["0"]) if n[0] == "agg" and n[1] == "adt" and n[2].endswith("ops::Range")]
+            half_open = bool(rng)
+            start_one = any(full(dict(r[4]).get("start", ("?",))) == "1" for r in rng)
+            end_den = any(full(dict(r[4]).get("end", ("?",))) in dtxt or dtxt in full(dict(r[4]).get("end", ("?",))) for r in rng)
+            incl = any(n[0] == "call" and "RangeInclusive" in n[1] for n in walk(pp["0"]))
+            chk.expect(half_open and start_one and end_den and not incl, "C12.D5-table", "new|numerators", where,
+                       f"numerators must run over 1..den (positive and smaller than the denominator); the stored numerator is {ntxt[:100]}",
+                       sample=f"{where}: num ∈ 1..den")
+            okk = " Div " in ktxt and " Mul " in ktxt and ktxt.index(" Div ") < ktxt.index(" Mul ") if " Div " in ktxt and " Mul " in ktxt else False
+            chk.expect(okk and "DENOMS" in dtxt or okk, "C12.D5-table", "new|key", where,
+                       f"the lookup key must be (num / den) scaled by FIX_RATIO; it is {ktxt[:120]}", sample=f"{where}: key = (num/den)·FIX_RATIO")
+        else:
+            chk.fail("C12.D5-table", "new|entry shape", where, f"table entries must be (key, (num, den)); inserted value is {txt[:100]}")
 
 
 def _tag(f, d):
